@@ -114,10 +114,10 @@ def q_ecies(env, name=None):
             qr.undecided.append(what + " — not reproduced natively: " + json.dumps(item.get("native"))[:300])
 
     def sat(pc, *extra):
-        se = SE.SeqEq(list(pc))
-        qr.queries += 1
-        r = se._check(*[se.abstract(e) for e in extra])
-        qr.solver_s += se.stats.get("solver_s", 0.0)
+        st = {}
+        r = SE.check_sat(list(pc), list(extra), st)
+        qr.queries += st.get("queries", 0)
+        qr.solver_s += st.get("solver_s", 0.0)
         return r
 
     # ---- E1: derive_cipher_keys_impl = slices of SHA-512 of the compressed shared point
